@@ -14,7 +14,8 @@ U = "ural.utils."
 ATOMIC = {
     U + "normpath", U + "decode_punycode_hostname", Q + "safely_quote", Q + "upper_quoted", Q + "unquote",
     U + "safe_qsl_iter", U + "safe_serialize_qsl", U + "unsplit_netloc", U + "fix_common_query_mistakes",
-    "ural.infer_redirection.infer_redirection", "ural.tld.split_suffix",
+    "ural.infer_redirection.infer_redirection", "ural.tld.split_suffix", "ural.canonicalize_url.canonicalize_url",
+    "ural.normalize_url.strip_irrelevant_parts_from_hostname",
     "ural.facebook.is_facebook_url", "ural.facebook.parse_facebook_url",
     "ural.youtube.is_youtube_url", "ural.youtube.normalize_youtube_url",
     "ural.normalize_url.should_strip_query_item", "ural.normalize_url.should_strip_fragment",
@@ -150,9 +151,12 @@ def is_attr(name):
     return lambda x: x[0] == "attr" and x[2] == name and is_parse(x[1])
 
 
-def port_drop_table(ctx, rule, fn, port_term, site):
-    """dropped(s, p) => p == default_port[s]; and the two default pairs are dropped."""
+def port_drop_table(ctx, rule, fn, port_term, site, relative_as=None):
+    """dropped(s, p) => p == default_port[s]; and the two default pairs are dropped.
+    relative_as: the scheme a protocol-relative url (parsed scheme '') stands for in this function."""
     DEFAULT = {"http": 80, "https": 443}
+    if relative_as:
+        DEFAULT[""] = DEFAULT[relative_as]
 
     def leaf_for(s, p):
         def leaf(t):
@@ -165,7 +169,7 @@ def port_drop_table(ctx, rule, fn, port_term, site):
         return leaf
 
     n = 0
-    for s in ("http", "https", "ftp", "wss"):
+    for s in ("http", "https", "ftp", "wss") + (("",) if relative_as else ()):
         for p in (80, 443, 8080, 21, None):
             n += 1
             try:
@@ -180,8 +184,8 @@ def port_drop_table(ctx, rule, fn, port_term, site):
                    witness="%s://a.com:%s/" % (s, p), sample="(%s,%s) -> %r" % (s, p, v))
             if p is not None and DEFAULT.get(s) == p:
                 ctx.ob(rule, "%s/port-default-dropped/(%s,%s)" % (fn, s, p), dropped,
-                       "%s keeps the explicit default port %s of a %s url: ':%s' and no port are two spellings" % (fn, p, s, p), site,
-                       witness="%s://a.com:%s/" % (s, p))
+                       "%s keeps the explicit default port %s of a %s url: ':%s' and no port are two spellings" % (fn, p, s or "protocol-relative (read as %s)" % relative_as, p), site,
+                       witness=("%s://a.com:%s/" % (s, p)) if s else "//a.com:%s/" % p)
     ctx.require_instances(rule, n, 20, "(scheme, port) cells")
 
 
